@@ -1,5 +1,7 @@
 """C04 — every connection is answered; no input can crash the server."""
+import os, random, time
 from .servebase import *
+import netprobe, vlib
 
 FORM_TARGETS = ["/form-get-method", "/form-url-encoded-enctype-post-method", "/form-multipart-enctype-post-method", "/file-upload/initiate"]
 
@@ -18,7 +20,85 @@ class P(ServeProp):
             "handler that reports an error and transport faults (read error, write error at call k, flush error).  Oracle (implementation only): the "
             "process neither panics nor dies, and unless the transport fails exactly one complete response is written (strictly parseable, "
             "Content-Length = body length), 400 when the request line is not parseable.  Non-trivial = the request was damaged or is a form post, "
-            "distinct by case line.")
+            "distinct by case line.  Real binary on loopback: byte inputs of every kind (valid, malformed, truncated, non-UTF-8, longer than "
+            "the buffer, form posts), each on its own connection while 0..N-1 other connections are open and silent on an N-worker server: "
+            "exactly one complete response arrives (strictly parseable, Content-Length = body length) and the process is alive afterwards.")
+
+    # ---- the real binary: a connection is answered once its bytes have arrived, whatever else is connected ----
+    def extra(self, tier, seed, work, notes):
+        fails = []
+        rnd = random.Random(seed * 15485863 + 4)
+        try:
+            exe = vlib.build_binary()
+        except vlib.Infra as e:
+            notes.append("campaign: skipped (%s)" % str(e)[:100])
+            return {"failures": [], "coverage": {"campaign": "skipped"}}
+        base = os.path.join(work, "net4"); os.makedirs(base, exist_ok=True)
+        root = netprobe.make_root(base)
+        valid = [b"GET /a.txt HTTP/1.1\r\nHost: localhost\r\n\r\n", b"GET / HTTP/1.1\r\n\r\n", b"HEAD /a.txt HTTP/1.1\r\n\r\n", b"OPTIONS /a.txt HTTP/1.1\r\nOrigin: https://foo.example\r\n\r\n",
+                 b"GET /a.txt HTTP/1.1\r\nRange: bytes=2-5\r\n\r\n", b"GET /a.txt HTTP/1.1\r\nRange: bytes=0-1,3-4\r\n\r\n", b"GET /missing HTTP/1.1\r\n\r\n", b"GET /big.bin HTTP/1.1\r\n\r\n",
+                 b"GET /form-get-method?a=1&b=%20 HTTP/1.1\r\n\r\n", b"POST /form-url-encoded-enctype-post-method HTTP/1.1\r\nContent-Type: application/x-www-form-urlencoded\r\n\r\na=1&b=2",
+                 b"POST /form-multipart-enctype-post-method HTTP/1.1\r\nContent-Type: multipart/form-data; boundary=--B\r\n\r\n--B\r\nContent-Disposition: form-data; name=\"f\"\r\n\r\nv\r\n--B",
+                 b"POST /file-upload/initiate?name=a&lastModified=1&size=3 HTTP/1.1\r\n\r\n"]
+        junk = [b"\x00", b"\r\n\r\n", b"GET", b"GET / HTTP/9.9\r\n\r\n", b"\xff\xfe\xfd", b"GET /\xff HTTP/1.1\r\n\r\n", b"FOO / HTTP/1.1\r\n\r\n", b"GET a.txt HTTP/1.1\r\n\r\n",
+                b"GET http://h:x/ HTTP/1.1\r\n\r\n", b"GET / HTTP/1.1\r\nContent-Length: 18446744073709551615\r\n\r\n", b"GET / HTTP/1.1\r\nContent-Length: -1\r\n\r\n", b"POST /x HTTP/1.1\r\nContent-Length: 4611686018427387904\r\n\r\nabc", b"POST /x HTTP/1.1\r\ncontent-length: 9223372036854775807\r\n\r\n",
+                b"GET /a.txt HTTP/1.1\r\nRange: bytes=-18446744073709551615\r\n\r\n", b"GET / HTTP/1.1\r\n" + b"a:b\r\n" * 2000 + b"\r\n", b"A" * 20000,
+                b"GET /" + b"x/" * 6000 + b" HTTP/1.1\r\n\r\n", b"POST /form-multipart-enctype-post-method HTTP/1.1\r\nContent-Type: multipart/form-data; boundary=\r\n\r\nx"]
+        rounds = 2 if tier == "quick" else 10
+        answered, samples = 0, []
+        for rd in range(rounds):
+            N = rnd.choice([2, 4, 8])
+            try:
+                s = netprobe.Server(exe, root, threads=N)
+            except Exception as e:
+                notes.append("campaign: server did not start (%s)" % e)
+                return {"failures": fails, "coverage": {"campaign": "skipped: bind failed", "connections_answered": answered}}
+            try:
+                inputs = valid + junk + [gs.mutate_request(rnd, rnd.choice(valid)) for _ in range(10 if tier == "quick" else 60)]
+                rnd.shuffle(inputs)
+                for data in inputs:
+                    if not data:
+                        continue
+                    k = rnd.choice([0, 0, 1, N - 1])
+                    idle = []
+                    try:
+                        for _ in range(k):
+                            idle.append(s.conn(5.0))
+                        got = None
+                        for deadline in (3.0, 8.0, 8.0):          # timing is never evidence on its own
+                            got = s.request(data, timeout=deadline)
+                            if got:
+                                break
+                        r = httpcanon.parse_response(got) if got else None
+                        sig = None
+                        if not s.alive(): sig = "server-process-died"
+                        elif not got: sig = "connection-not-answered"
+                        elif r is None: sig = "response-not-well-formed"
+                        else:
+                            cl = httpcanon.header(r, "Content-Length")
+                            if len(cl) == 1 and cl[0].isdigit() and int(cl[0]) != len(r["body"]) and not data.startswith((b"HEAD", b"OPTIONS")):
+                                sig = "content-length-differs-from-body"
+                        if sig:
+                            fails.append(("%s with %d silent connection(s) open on -t=%d" % (sig, k, N), sig, None,
+                                          {"request_hex": data[:400].hex(), "request": data[:200].decode("latin-1"), "threads": N, "silent_connections": k,
+                                           "received": (got or b"")[:300].decode("latin-1"), "how": "tools/netprobe.py: Server(exe, root, threads=N); k silent connections; Server.request(data)"}))
+                            if sig == "server-process-died":
+                                break
+                        else:
+                            answered += 1
+                    finally:
+                        for c in idle:
+                            try: c.close()
+                            except OSError: pass
+                    if len(fails) >= 3:
+                        break
+                if len(samples) < 2:
+                    samples.append({"threads": N, "inputs": len(inputs)})
+            finally:
+                s.stop()
+            if fails:
+                break
+        return {"failures": fails, "coverage": {"campaign": "real binary on loopback", "connections_answered": answered, "rounds": samples}}
 
     def form_request(self, rnd):
         t = rnd.choice(FORM_TARGETS)
